@@ -121,7 +121,7 @@ Lemma BS_change (X : key -> bool) x s s' : is_epoch s' = is_epoch s ->
   (forall k, kind_of s k = KDoesNotNeedToRun -> pending_for s k -> pending_for s' k) ->
   BS x s -> BS x s'.
 Proof.
-  intros He H1 H2 HS Hsk Hrec Hp [S1 S2 S3].
+  intros He H1 H2 HS Hsk Hrec Hp [S1 S2 S3 S4].
   assert (HX : forall k, kind_of s k = KScanning \/ kind_of s k = KDoesNotNeedToRun \/ kind_of s k = KComplete -> X k = false).
   { intros k Hk. destruct (X k) eqn:Hx; auto. destruct (H2 k Hx) as ((U1 & U2 & U3) & _). destruct Hk as [Hk|[Hk|Hk]]; contradiction. }
   assert (HX' : forall k, kind_of s' k = KScanning \/ kind_of s' k = KDoesNotNeedToRun \/ kind_of s' k = KComplete -> X k = false).
@@ -145,5 +145,8 @@ Proof.
     + intros d Hin. rewrite Ed in Hin. now apply Hcur, Hd.
     + unfold bAt. now rewrite Hr.
     + now apply Hp.
+  - intros rq Hrq i d Hi. pose proof (HS rq Hrq) as Hrq0.
+    assert (Hx : X (sq_rule rq) = false) by (apply HX; left; now apply Hsk).
+    destruct (H1 _ Hx) as [Hr _]. unfold deps. rewrite Hr. now apply (S4 rq Hrq0 i d).
 Qed.
 End Inc.
